@@ -66,12 +66,45 @@ func genLine(r *rng, w int) string {
 	}
 	var sb strings.Builder
 	base := r.intn(26)
+	styled := r.chance(1, 4) // styled text: SGR sequences take no cell
+	sgr := []string{"\x1b[1m", "\x1b[0m", "\x1b[m", "\x1b[38;5;201m", "\x1b[4;31m", "\x1b[48;2;10;20;30m", "\x1b[7m"}
 	for i := 0; i < n; i++ {
+		if styled && r.chance(1, 4) {
+			sb.WriteString(sgr[r.intn(len(sgr))])
+		}
 		if r.chance(1, 9) {
 			sb.WriteByte(' ')
 		} else {
 			sb.WriteByte(byte('a' + (base+i)%26))
 		}
+	}
+	if styled && r.chance(2, 3) {
+		sb.WriteString(sgr[r.intn(3)])
+	}
+	return sb.String()
+}
+
+// visibleOf: what a terminal prints of a line: its bytes without the escape
+// sequences (the oracle's own stripper, independent of x/ansi).
+func visibleOf(l string) string {
+	if !strings.Contains(l, "\x1b") {
+		return l
+	}
+	var sb strings.Builder
+	for i := 0; i < len(l); i++ {
+		if l[i] == 0x1b {
+			if i+1 < len(l) && l[i+1] == '[' {
+				j := i + 2
+				for j < len(l) && (l[j] < 0x40 || l[j] > 0x7e) {
+					j++
+				}
+				i = j
+			} else {
+				i++
+			}
+			continue
+		}
+		sb.WriteByte(l[i])
 	}
 	return sb.String()
 }
@@ -280,6 +313,7 @@ func clipView(s string, w, h int) []string {
 	}
 	out := make([]string, len(lines))
 	for i, l := range lines {
+		l = visibleOf(l)
 		if w > 0 && len(l) > w {
 			l = l[:w]
 		}
@@ -298,6 +332,7 @@ func clipRaw(s string, h int) []string {
 }
 
 func wrapRows(l string, w int) []string {
+	l = visibleOf(l)
 	if len(l) == 0 {
 		return []string{""}
 	}
@@ -414,7 +449,9 @@ func runHistory(h rhistory) (res renderOutcome) {
 				if flushBytes != 0 {
 					fail("C19", "rendering a view identical to the one on screen wrote bytes", "no output", fmt.Sprintf("%d bytes", flushBytes))
 				}
-			} else if pendingWrite && onScreen != nil && len(queued) == 0 {
+			} else if pendingWrite && onScreen != nil && (len(queued) == 0 || before.AltScreenActive) {
+				// (printed lines still queued do not concern the alt screen: they are shown, if at
+				// all, on the main screen)
 				// C19: unchanged lines are not retransmitted
 				oldL, newL := clipRaw(*onScreen, curH), clipRaw(lastWritten, curH)
 				budget := len(newL) + 16 + 2*len(fmt.Sprint(len(oldL)+curW))
